@@ -67,12 +67,34 @@ type Unit struct {
 	writeLog  map[string][]Term
 	logging   bool
 	allocSyms map[Term]bool
+	spawnUnits []*Unit
+	loopGuards []loopGuard
 }
 
-func (u *Unit) logWrite(heap string, idx Term) {
+// loopGuard: while the body of a loop whose heap frame was assumed in quantified form is executed, every write to
+// that heap must go to a reference that is new since the loop head or to one of the explicitly excluded ones.
+type loopGuard struct {
+	heap    string
+	allowed []Term
+	fpre    Term
+	ord     int
+}
+
+func (u *Unit) logWrite(st *State, heap string, idx Term) {
 	r := u.root()
 	if r.logging {
 		r.writeLog[heap] = append(r.writeLog[heap], idx)
+		return
+	}
+	for _, g := range r.loopGuards {
+		if g.heap != heap {
+			continue
+		}
+		alts := []Term{tNot(isOld(idx, g.fpre))}
+		for _, a := range g.allowed {
+			alts = append(alts, tEq(idx, a))
+		}
+		u.oblige(st, "loop-frame", fmt.Sprintf("%d:%s", g.ord, heap), tOr(alts...), 0)
 	}
 }
 
@@ -247,6 +269,7 @@ func (u *Unit) loadAt(st *State, base string, T types.Type, idx Term) Val {
 		v.Len = tSel(u.heapTerm(st, base+".len", sArr(SInt, SInt)), idx)
 		v.Cap = tSel(u.heapTerm(st, base+".cap", sArr(SInt, SInt)), idx)
 		u.assumeOnce(st, u.typeAssume(v))
+		u.assumeOnce(st, tLt(v.Arr, st.frontier))
 		return v
 	}
 	s := sortOf(T)
@@ -282,14 +305,14 @@ func (u *Unit) storeAt(st *State, base string, T types.Type, idx Term, v Val) {
 			t   Term
 		}{{".arr", v.Arr}, {".off", v.Off}, {".len", v.Len}, {".cap", v.Cap}} {
 			h := u.heapTerm(st, base+c.suf, sArr(SInt, SInt))
-			u.logWrite(base+c.suf, idx)
+			u.logWrite(st, base+c.suf, idx)
 			u.setHeap(st, base+c.suf, sArr(SInt, SInt), tStore(h, idx, c.t))
 		}
 		return
 	}
 	s := sortOf(T)
 	h := u.heapTerm(st, base, sArr(SInt, s))
-	u.logWrite(base, idx)
+	u.logWrite(st, base, idx)
 	u.setHeap(st, base, sArr(SInt, s), tStore(h, idx, v.S))
 }
 
@@ -315,6 +338,7 @@ func (u *Unit) loadElem(st *State, elem types.Type, arr, idx Term) Val {
 		}
 		v.Arr, v.Off, v.Len, v.Cap = get(".arr"), get(".off"), get(".len"), get(".cap")
 		u.assumeOnce(st, u.typeAssume(v))
+		u.assumeOnce(st, tLt(v.Arr, st.frontier))
 		return v
 	}
 	name, sort := u.elemHeapName(elem)
@@ -337,14 +361,14 @@ func (u *Unit) storeElem(st *State, elem types.Type, arr, idx Term, v Val) {
 		}{{".arr", v.Arr}, {".off", v.Off}, {".len", v.Len}, {".cap", v.Cap}} {
 			sort := sArr(SInt, sArr(SInt, SInt))
 			h := u.heapTerm(st, base+c.suf, sort)
-			u.logWrite(base+c.suf, arr)
+			u.logWrite(st, base+c.suf, arr)
 			u.setHeap(st, base+c.suf, sort, tStore(h, arr, tStore(tSel(h, arr), idx, c.t)))
 		}
 		return
 	}
 	name, sort := u.elemHeapName(elem)
 	h := u.heapTerm(st, name, sort)
-	u.logWrite(name, arr)
+	u.logWrite(st, name, arr)
 	u.setHeap(st, name, sort, tStore(h, arr, tStore(tSel(h, arr), idx, v.S)))
 }
 
@@ -357,7 +381,7 @@ func (u *Unit) elemArray(st *State, elem types.Type, arr Term) Term {
 func (u *Unit) setElemArray(st *State, elem types.Type, arr Term, content Term) {
 	name, sort := u.elemHeapName(elem)
 	h := u.heapTerm(st, name, sort)
-	u.logWrite(name, arr)
+	u.logWrite(st, name, arr)
 	u.setHeap(st, name, sort, tStore(h, arr, content))
 }
 
